@@ -308,7 +308,14 @@ def scorer_cli(rdir, enc, cands, first, limit):
     import password_scorer
     wr = scratch.worker_root()
     scratch.point_tools_at(wr, ("password_scorer",))
-    usable = [c for c in cands if c == c.strip("\r\n") and not (c.startswith("$HEX[") and c.endswith("]"))]
+    def writable(c):
+        # (an upper-cased candidate may leave the code page: cp437 has U+00FA and no U+00DA)
+        try:
+            c.encode(enc, "surrogateescape")
+            return True
+        except UnicodeEncodeError:
+            return False
+    usable = [c for c in cands if c == c.strip("\r\n") and not (c.startswith("$HEX[") and c.endswith("]")) and writable(c)]
     inp = os.path.join(wr, "score_in.txt")
     outp = os.path.join(wr, "score_out.txt")
     with open(inp, "wb") as f:
